@@ -188,7 +188,11 @@ where
 
                 block
             }
-            None => Block::default(),
+            None => {
+                let mut block = Block::default();
+                block.set_position(pos.compressed());
+                block
+            }
         };
 
         self.stream.replace(stream);
@@ -243,7 +247,11 @@ where
                             block
                         }
                         Some(Err(e)) => return Poll::Ready(Err(e)),
-                        None => Block::default(),
+                        None => {
+                            let mut block = Block::default();
+                            block.set_position(pos.compressed());
+                            block
+                        }
                     };
 
                     self.stream.replace(stream);
